@@ -184,7 +184,7 @@ func (si *schedInst) Body() {
 	}
 	in := si.Inst
 	s := in.S
-	in.Env = &Env{Plan: in.C.Plan, DefaultImpl: s.W.DefaultImpl, AltImpl: s.W.AltImpl, RogueImpl: s.W.RogueImpl, Yield: in.C.Yield, HonourCancel: in.C.Cancel, Intercept: in.C.Intercept}
+	in.Env = &Env{Plan: in.C.Plan, DefaultImpl: s.W.DefaultImpl, AltImpl: s.W.AltImpl, RogueImpl: s.W.RogueImpl, Yield: in.C.Yield, HonourCancel: in.C.Cancel, Intercept: in.C.Intercept, MapFields: s.mapFields}
 	s.cur = in.Env
 	ctx, cancel := context.WithCancel(context.Background())
 	if in.C.Cancel {
